@@ -42,7 +42,15 @@ def owning_props(ob, unit):
     fn = unit['fns'][ob['key']]
     default = getattr(fn, 'props', None) or unit.get('props', [])
     if ob['kind'] == 'safety':
-        return list(getattr(fn, 'safety_props', None) or default)
+        ps = list(getattr(fn, 'safety_props', None) or default)
+        # a failed call-site precondition belongs (also) to the property its label names: callpre:<fn>.<Cxx:label>@site
+        for site in ob.get('sites') or []:
+            m = re.search(r'/callpre:[^@]*?\.(C\d+(?:\+C\d+)*):', site)
+            if m:
+                for p_ in m.group(1).split('+'):
+                    if p_ not in ps:
+                        ps.append(p_)
+        return ps
     return prop_of_label(ob['label'], default)
 
 
